@@ -82,25 +82,25 @@ type e2Node struct {
 	dir  string
 	run  *e2Run
 
-	mu    sync.Mutex // guards the fields below against Restore swapping them
-	irc   *ircserver.IRCServer
-	out   *outputstream.OutputStream
-	ircs  *raftstore.LevelDBStore
-	logs  *raftstore.LevelDBStore
-	fsm   *FSM
-	raft  *raft.Raft
-	trans *rafthttp.HTTPTransport
-	api   *api.HTTP
-	fss   raft.SnapshotStore
-	dirA     atomic.Value
-	reaped   atomic.Bool
-	killIn   atomic.Int64 // >0: the process dies at its killIn-th next storage operation
-	killTorn atomic.Int64
-	forks    int
-	aliveA atomic.Bool
-	incA   atomic.Int64
+	mu         sync.Mutex // guards the fields below against Restore swapping them
+	irc        *ircserver.IRCServer
+	out        *outputstream.OutputStream
+	ircs       *raftstore.LevelDBStore
+	logs       *raftstore.LevelDBStore
+	fsm        *FSM
+	raft       *raft.Raft
+	trans      *rafthttp.HTTPTransport
+	api        *api.HTTP
+	fss        raft.SnapshotStore
+	dirA       atomic.Value
+	reaped     atomic.Bool
+	killIn     atomic.Int64 // >0: the process dies at its killIn-th next storage operation
+	killTorn   atomic.Int64
+	forks      int
+	aliveA     atomic.Bool
+	incA       atomic.Int64
 	stopExpire context.CancelFunc
-	slowA  atomic.Int64
+	slowA      atomic.Int64
 }
 
 type e2FSM struct{ n *e2Node }
@@ -493,12 +493,12 @@ wait:
 // run state
 
 type e2Post struct {
-	client  int
-	seq     int
-	token   string
-	acked   bool
-	mangled bool
-	ping    bool
+	client   int
+	seq      int
+	token    string
+	acked    bool
+	mangled  bool
+	ping     bool
 	attempts int
 }
 
@@ -522,30 +522,30 @@ type e2Client struct {
 }
 
 type e2Run struct {
-	sc      *e2Scenario
-	res     *core.Result
-	tr      *core.Trace
-	src     *core.Source
-	root    string
-	nodes   []*e2Node
-	clients []*e2Client
-	sideAv  atomic.Value // map[int]bool or nil
-	lossA   atomic.Int64
-	statMu  sync.Mutex
-	choiceMu sync.Mutex
-	trMu     sync.Mutex
-	stop    context.CancelFunc
-	ctx     context.Context
-	prop    string
-	stepIdx int
-	zombieOut []*outputstream.OutputStream
-	zombieMu  sync.Mutex
+	sc             *e2Scenario
+	res            *core.Result
+	tr             *core.Trace
+	src            *core.Source
+	root           string
+	nodes          []*e2Node
+	clients        []*e2Client
+	sideAv         atomic.Value // map[int]bool or nil
+	lossA          atomic.Int64
+	statMu         sync.Mutex
+	choiceMu       sync.Mutex
+	trMu           sync.Mutex
+	stop           context.CancelFunc
+	ctx            context.Context
+	prop           string
+	stepIdx        int
+	zombieOut      []*outputstream.OutputStream
+	zombieMu       sync.Mutex
 	sessionsMayEnd bool
-	retried      map[[2]uint64]string
-	retriedMu    sync.Mutex
-	attackTokens []string
-	cfgAccepted  int
-	lastCfg      string
+	retried        map[[2]uint64]string
+	retriedMu      sync.Mutex
+	attackTokens   []string
+	cfgAccepted    int
+	lastCfg        string
 }
 
 func (r *e2Run) count(k string, n int64) {
@@ -677,6 +677,11 @@ func (w *e2StreamWriter) Flush()              {}
 func (w *e2StreamWriter) Write(p []byte) (int, error) {
 	if w.code == 0 {
 		w.code = 200
+	}
+	if w.code != 200 {
+		// an error body is kept whole
+		w.buf = append(w.buf, p...)
+		return len(p), nil
 	}
 	w.buf = append(w.buf, p...)
 	for {
@@ -1227,33 +1232,44 @@ func (r *e2Run) lagProber(ctx context.Context) {
 			continue
 		}
 		r.count("lagprobe_sessions", 1)
+		// all nodes are asked in the same instant, right after the creation was acknowledged: followers
+		// learn the commit index only with the next AppendEntries
+		var wg sync.WaitGroup
 		for _, n := range r.nodes {
 			if !n.aliveA.Load() {
 				continue
 			}
 			n := n
-			gctx, gcancel := context.WithTimeout(ctx, 400*time.Millisecond)
-			req, _ := http.NewRequestWithContext(gctx, "GET", "https://"+n.addr+"/robustirc/v1/"+rep.Sessionid+"/messages?lastseen=0.0", nil)
-			req.Header.Set("X-Session-Auth", rep.Sessionauth)
-			w := &e2StreamWriter{hdr: http.Header{}, on: func(m *robust.Message) {}}
-			n.api.DispatchPublic(w, req)
-			gcancel()
-			r.count("lagprobe_lookups", 1)
-			switch {
-			case w.code == 404:
-				r.violate("C17", "live-session-reported-gone", "http-404-for-live-session", "node %d (%s, applied index %d) answered 404 to GET messages for session %s created a moment ago through another node: %s", n.idx, n.raft.State(), n.raft.AppliedIndex(), rep.Sessionid, trunc(string(w.buf), 100))
-			case w.code == 500 && strings.Contains(string(w.buf), "not yet seen"):
-				r.count("lagging_node_said_not_yet_seen", 1)
-			}
-			// POST is proxied to the leader by a lagging follower
-			pctx, pcancel := context.WithTimeout(ctx, 5*time.Second)
-			pb, _ := json.Marshal(map[string]interface{}{"Data": "PING :lag", "ClientMessageId": 77})
-			pcode, prb, _, perr := r.request(pctx, n.idx, "POST", "/robustirc/v1/"+rep.Sessionid+"/message", map[string]string{"X-Session-Auth": rep.Sessionauth}, string(pb))
-			pcancel()
-			if perr == nil && pcode == 404 {
-				r.violate("C17", "live-session-reported-gone", "http-404-for-live-session", "node %d (%s) answered 404 to POST message for session %s created a moment ago: %s", n.idx, n.raft.State(), rep.Sessionid, trunc(string(prb), 100))
-			}
+			wg.Add(1)
+			go func() {
+				defer wg.Done()
+				if sid, err := strconv.ParseUint(rep.Sessionid, 0, 64); err == nil && n.raft.AppliedIndex() < sid-prodMessageOffsetE2 {
+					r.count("lagprobe_node_behind_creation", 1)
+				}
+				gctx, gcancel := context.WithTimeout(ctx, 400*time.Millisecond)
+				req, _ := http.NewRequestWithContext(gctx, "GET", "https://"+n.addr+"/robustirc/v1/"+rep.Sessionid+"/messages?lastseen=0.0", nil)
+				req.Header.Set("X-Session-Auth", rep.Sessionauth)
+				w := &e2StreamWriter{hdr: http.Header{}, on: func(m *robust.Message) {}}
+				n.api.DispatchPublic(w, req)
+				gcancel()
+				r.count("lagprobe_lookups", 1)
+				switch {
+				case w.code == 404:
+					r.violate("C17", "live-session-reported-gone", "http-404-for-live-session", "node %d (%s, applied index %d) answered 404 to GET messages for session %s created a moment ago through another node: %s", n.idx, n.raft.State(), n.raft.AppliedIndex(), rep.Sessionid, trunc(string(w.buf), 100))
+				case w.code == 500 && strings.Contains(string(w.buf), "not yet seen"):
+					r.count("lagging_node_said_not_yet_seen", 1)
+				}
+				// POST is proxied to the leader by a lagging follower
+				pctx, pcancel := context.WithTimeout(ctx, 5*time.Second)
+				pb, _ := json.Marshal(map[string]interface{}{"Data": "PING :lag", "ClientMessageId": 77})
+				pcode, prb, _, perr := r.request(pctx, n.idx, "POST", "/robustirc/v1/"+rep.Sessionid+"/message", map[string]string{"X-Session-Auth": rep.Sessionauth}, string(pb))
+				pcancel()
+				if perr == nil && pcode == 404 {
+					r.violate("C17", "live-session-reported-gone", "http-404-for-live-session", "node %d (%s) answered 404 to POST message for session %s created a moment ago: %s", n.idx, n.raft.State(), rep.Sessionid, trunc(string(prb), 100))
+				}
+			}()
 		}
+		wg.Wait()
 	}
 }
 
@@ -2021,7 +2037,7 @@ func (r *e2Run) propertyChecks() {
 				r.violate("C11", "unauthenticated-effect", "session-deleted-by-attacker", "session %s of client %d no longer exists although its owner never deleted it", c.session, c.idx)
 			}
 		}
-			r.quietAttacks()
+		r.quietAttacks()
 	}
 	// C16: every replica uses the same configuration
 	if r.prop == "C16" {
